@@ -1,5 +1,6 @@
 """C03 - composition obeys its law, is closed and type-sound, leaves operands intact."""
 import math
+import os
 import zlib
 from functools import reduce
 
@@ -16,21 +17,30 @@ PROPERTY = "C03"
 RULE = (
     "grid: the full ordered grid of the 12 homogeneous-family classes x 12 x {compose_before, compose_after} x {2-D, 3-D} "
     "x {plain, in-place} = 1152 cells, every cell run with 3 (quick) / 60 (thorough) parameter sets drawn from a "
-    "RandomState seeded by crc32(cell id, repetition) in the format of vlib.objs.homog_case (well conditioned linear "
-    "parts, |t| <= 10, perspective rows <= 0.008, alignments fitted to noisy affine images of jittered-lattice sources); "
+    "RandomState seeded by crc32(cell id, repetition, run seed) in the format of vlib.objs.homog_case (well conditioned linear "
+    "parts, |t| <= 10, perspective rows <= 0.008, a Homogeneous stored with any overall scale w / zero perspective row / "
+    "integer-dtype matrix, an Affine as an integer-dtype matrix or the exact identity, alignments fitted to noisy affine "
+    "images of jittered-lattice sources); the run seed is stored in the cell so a replay needs no environment; "
     "diagonal cells use the SAME object as both operands on every third repetition. pairs: Hypothesis-drawn (first, "
-    "second) transforms in application order from all 17 kinds (homogeneous family, TransformChain of 1-3 members, "
-    "WithDims list/int/mask, ThinPlateSplines with 3 kernels, CachedPWA, PythonPWA), the second taking the first's "
+    "second) transforms in application order from all 17 kinds (homogeneous family, TransformChain of 1-3 homogeneous "
+    "members, WithDims list/int/mask, ThinPlateSplines with 3 kernels, CachedPWA, PythonPWA) plus 'rich' chains (members "
+    "drawn from the homogeneous family, ThinPlateSplines, WithDims - also dimension-reducing, the chain continuing in the "
+    "lower dimension - and nested chains to depth 2) and non-square Homogeneous matrices (2-D -> 3-D, 3-D -> 2-D), the second taking the first's "
     "output dimension, receiver chosen by the direction; evaluation points lie in the domain (PWA: convex combinations "
-    "of source triangles, pulled back through the first map by its reference inverse when the PWA comes second). "
+    "of source triangles, pulled back through the first map by its reference inverse when the PWA comes second); the "
+    "plain composite is applied to the points as an array and as a PointCloud. "
     "programs: an accumulator and 1-8 steps drawn from {compose_before, compose_after, their in-place forms, "
     "compose_after_from_vector_inplace} with the operand drawn fresh, re-used from an earlier step, or the accumulator "
     "itself; 1 program in 3 starts from a proper sub-family of Affine (Translation, Similarity, Rotation, UniformScale, "
     "mostly their alignment forms), is first composed in place with a wider affine-family operand, then plainly with "
-    "itself or an alignment of its own class, and then mostly stays in its own sub-family. decompose: any of the 11 affine-family classes "
-    "in 2-D/3-D. Non-trivial: grid/pairs - neither operand is the "
+    "itself or an alignment of its own class, and then mostly stays in its own sub-family; the vector step is taken on "
+    "whatever class the accumulator has (translation / scale / per-axis scales / unit quaternion / [a, b, tx, ty] / affine "
+    "deltas / full matrix). vector: each of the 12 classes in 2-D/3-D as receiver of 1-2 "
+    "compose_after_from_vector_inplace calls, then optionally a plain composition. decompose: any of the 11 affine-family classes "
+    "in 2-D/3-D; the factors are examined one by one. Non-trivial: grid/pairs - neither operand is the "
     "identity and the operands are two objects; programs - >= 2 executed steps of which >= 1 is an accepted in-place "
-    "step; decompose - a genuine 4-factor decomposition of a non-identity affine. Distinct = distinct canonical-JSON digest."
+    "step; vector - >= 1 vector composed onto a non-identity receiver; decompose - a genuine 4-factor decomposition of a "
+    "non-identity affine. Distinct = distinct canonical-JSON digest."
 )
 ASSUMPTIONS = [
     "reference side of the law is evaluated by explicit loops from snapshots taken BEFORE the call: independently built "
@@ -52,8 +62,20 @@ ASSUMPTIONS = [
     "a chain composed in place with itself that then recurses under inplace.chain_composed_with_itself.infinite_recursion",
     "pairs: a PWA as the second map is only paired with a first map that has a reference inverse (homogeneous family, "
     "chain of those, WithDims); programs use dimension-preserving operands with unbounded domain (homogeneous family, "
-    "chains, TPS in 2-D); compose_after_from_vector_inplace is exercised on receivers whose from_vector rebuilds the "
-    "whole matrix (Homogeneous, Affine, 2-D Similarity and their alignment forms)",
+    "chains incl. nested / TPS / axis-permuting WithDims members, TPS in 2-D)",
+    "compose_after_from_vector_inplace: the reference matrix of the vector is written out per class from the documented "
+    "parametrisation (Translation t, UniformScale s, NonUniformScale per-axis s, 3-D Rotation unit quaternion (w, x, y, z), "
+    "2-D Similarity [a, b, tx, ty], Affine column-major deltas of the top rows, Homogeneous the row-major matrix); scales "
+    "lie in [0.25, 4], quaternions are normalised; 2-D rotations and 3-D similarities are documented as not vectorizable: "
+    "NotImplementedError with an untouched receiver is the expected outcome there",
+    "decompose: the factor list [Rotation, UniformScale | NonUniformScale, Rotation, Translation] is the documented SVD "
+    "form ('list of DiscreteAffine'); Rotation factors are only required to be orthogonal (the SVD gives improper ones "
+    "for mirrored inputs), the scale factor to be positive; a discrete class returns one copy of itself (alignment "
+    "nature kept, as the tree does)",
+    "non-square Homogeneous operands: only the law, operand integrity and the in-place gate are asserted (closure / "
+    "invertibility is not defined for them); they occur as top-level operands of `pairs` only",
+    "chain results hold the operand objects themselves by documented design: mutating an operand later changes an "
+    "earlier chain result; that is outside the statement and not asserted",
 ]
 
 _CACHE = ("._applied_points", "._iab")
@@ -100,15 +122,46 @@ def _points(rs, n, d, extent=10.0):
     return pts
 
 
-def sample_homog(rs, kind, d):
+W_CHOICES = [1.0, 1.0, 2.5, 0.5, -2.0, 4.0]
+
+
+def _int_affine(rs, d, last=1):
+    """Integer matrix rows (a user-supplied integer-dtype h_matrix): entries in [-3, 3], non-singular, condition <= 60,
+    integer translation in [-5, 5], last row [0 .. 0 last]."""
+    while True:
+        lin = rs.randint(-3, 4, size=(d, d))
+        m = lin.astype(float)
+        if abs(np.linalg.det(m)) >= 0.5 and np.linalg.cond(m) <= 60:
+            break
+    t = rs.randint(-5, 6, size=d)
+    return [[int(v) for v in lin[i]] + [int(t[i])] for i in range(d)] + [[0] * d + [int(last)]]
+
+
+def sample_homog(rs, kind, d, variants=False):
+    """`variants` (cells that carry the run seed): a Homogeneous may be stored with any overall scale w != 1, with an
+    exactly zero perspective row, or as an integer-dtype matrix; an Affine may be an integer-dtype matrix or the exact
+    identity (same forms as objs.homog_case)."""
     c = {"kind": kind, "d": d}
     if kind == "Homogeneous":
         c["lin"] = _lin(rs, d)
         c["t"] = _vec(rs, d)
         c["persp"] = [_q(rs, -0.008, 0.008, 1 << 16) for _ in range(d)]
+        if variants:
+            c["w"] = W_CHOICES[int(rs.randint(0, len(W_CHOICES)))]
+            form = int(rs.randint(0, 8))
+            if form <= 1:
+                c["persp"] = [0.0] * d
+            elif form == 2:
+                c["imat"] = _int_affine(rs, d, last=[1, 2, -1, -2][int(rs.randint(0, 4))])
     elif kind == "Affine":
         c["lin"] = _lin(rs, d)
         c["t"] = _vec(rs, d)
+        if variants:
+            form = int(rs.randint(0, 8))
+            if form <= 1:
+                c["imat"] = _int_affine(rs, d)
+            elif form == 2:
+                c["identity"] = True
     elif kind == "Similarity":
         c["rot"] = _orth(rs, d, True)
         c["s"] = _q(rs, 0.25, 4)
@@ -178,10 +231,18 @@ def withdims_cols(case):
     return list(dims)
 
 
+def build(case):
+    if case.get("rect") is not None:  # non-square Homogeneous (n_dims != n_dims_output), top-level operands only
+        return Homogeneous(np.array(case["rect"], dtype=float))
+    return objs.build_transform(case)
+
+
 def ref_stages(case, t):
     """Reference stages of a transform built from `case`; `t` is the built object (read only for alignment
     snapshots, taken now, i.e. before any composition call)."""
     kind = case["kind"]
+    if case.get("rect") is not None:
+        return [("h", np.array(case["rect"], dtype=float))]
     if kind in objs.PLAIN_HOMOG_KINDS:
         return [("h", objs.ref_h(case))]
     if kind in objs.ALIGN_KINDS:
@@ -253,26 +314,27 @@ def ref_eval(stages, x):
         if stg[0] == "h":
             h = stg[1]
             ah = np.abs(h)
-            d = h.shape[0] - 1
-            out = np.zeros((n, d))
-            vout = np.ones((n, d + 1))
+            d = h.shape[1] - 1  # input dimension
+            do = h.shape[0] - 1  # output dimension (differs for a non-square Homogeneous)
+            out = np.zeros((n, do))
+            vout = np.ones((n, do + 1))
             for i in range(n):
                 if not ok[i]:
                     continue
-                w = [sum(h[r, c] * y[i, c] for c in range(d)) + h[r, d] for r in range(d + 1)]
-                terms = sum(abs(h[d, c] * y[i, c]) for c in range(d)) + abs(h[d, d])
-                if abs(w[d]) < DIV_MIN:
+                w = [sum(h[r, c] * y[i, c] for c in range(d)) + h[r, d] for r in range(do + 1)]
+                terms = sum(abs(h[do, c] * y[i, c]) for c in range(d)) + abs(h[do, d])
+                if abs(w[do]) < DIV_MIN:
                     ok[i] = False
                     continue
-                amp[i] *= terms / abs(w[d])
-                for r in range(d):
-                    out[i, r] = w[r] / w[d]
-                for r in range(d + 1):
-                    vout[i, r] = sum(ah[r, c] * v[i, c] for c in range(d + 1)) / abs(w[d])
-                e[i] = e[i] * max(sum(ah[r, c] for c in range(d)) for r in range(d)) * (terms / abs(w[d])) / abs(w[d])
+                amp[i] *= terms / abs(w[do])
+                for r in range(do):
+                    out[i, r] = w[r] / w[do]
+                for r in range(do + 1):
+                    vout[i, r] = sum(ah[r, c] * v[i, c] for c in range(d + 1)) / abs(w[do])
+                e[i] = e[i] * max(sum(ah[r, c] for c in range(d)) for r in range(do)) * (terms / abs(w[do])) / abs(w[do])
                 if len(stg) > 2:
                     delta = sum(stg[2][c] * abs(y[i, c]) for c in range(d)) + stg[2][d]
-                    e[i] += delta * max(abs(out[i, r]) for r in range(d))
+                    e[i] += delta * max(abs(out[i, r]) for r in range(do))
             y = out
             v = vout
         elif stg[0] == "cols":
@@ -327,16 +389,29 @@ def stages_matrix(stages):
     return m
 
 
-def check_map(ctx, t, x, ref, sig, what=""):
-    """t.apply(x) against a reference evaluation (y, ok, amp, mag); returns the number of points compared."""
+def check_map(ctx, t, x, ref, sig, what="", as_shape=False):
+    """t.apply(x) against a reference evaluation (y, ok, amp, mag); returns the number of points compared.
+    as_shape: the points are handed over as a PointCloud (the composite is applied to a shape, not an array)."""
     want, ok, amp, mag, tolv = ref
     n_ok = int(ok.sum())
-    if n_ok < len(ok):
+    if n_ok < len(ok) and not as_shape:
         ctx.event("skipped point (small homogeneous divisor or ill conditioned)")
     if n_ok == 0:
-        ctx.event("no valid evaluation point")
+        if not as_shape:
+            ctx.event("no valid evaluation point")
         return 0
-    got = np.asarray(t.apply(np.array(x, dtype=float, copy=True)), dtype=float)
+    if as_shape:
+        from menpo.shape import PointCloud
+
+        pc = PointCloud(np.array(x, dtype=float, copy=True))
+        res = t.apply(pc)
+        if not ctx.expect(isinstance(res, PointCloud) and res is not pc, sig, lambda: "%s applied to a PointCloud returned %s" % (
+                what, "the PointCloud itself" if res is pc else type(res).__name__)):
+            return n_ok
+        ctx.expect(np.array_equal(pc.points, np.asarray(x, dtype=float)), sig, "%s apply() changed the PointCloud it was given" % what)
+        got = np.asarray(res.points, dtype=float)
+    else:
+        got = np.asarray(t.apply(np.array(x, dtype=float, copy=True)), dtype=float)
     if got.shape != want.shape:
         ctx.fail(sig, "%s result shape %r, reference %r" % (what, got.shape, want.shape))
         return n_ok
@@ -389,8 +464,11 @@ def reported_classes(t):
 
 
 def dishonest_classes(t):
+    rep = reported_classes(t)
+    if not rep:  # a plain Homogeneous (possibly non-square) claims nothing
+        return []
     facts = matrix_facts(t.h_matrix)
-    return [nm for nm in reported_classes(t) if not facts[nm]]
+    return [nm for nm in rep if not facts[nm]]
 
 
 def check_closure_honesty(ctx, r, x, ref, prod):
@@ -433,7 +511,7 @@ def check_closure_honesty(ctx, r, x, ref, prod):
 
 def is_identity_stages(stages):
     m = stages_matrix(stages)
-    if m is None:
+    if m is None or m.shape[0] != m.shape[1]:
         return False
     return bool(np.allclose(m, np.eye(m.shape[0]) * m[-1, -1], atol=1e-12))
 
@@ -453,14 +531,14 @@ def expect_unchanged(ctx, t, before, sig):
 
 def run_pair(ctx, ca, cb, direction, inplace, alias, x):
     """a = receiver, b = argument. direction 'before': a first then b; 'after': b first then a."""
-    build = objs.build_transform
     a = build(ca)
     b = a if alias else build(cb)
     sa = ref_stages(ca, a)
     sb = sa if alias else ref_stages(cb, b)
     model = sa + sb if direction == "before" else sb + sa
     ref = ref_eval(model, x)
-    homog_pair = ca["kind"] in KINDS and cb["kind"] in KINDS
+    # closure / invertibility is stated for (square) homogeneous-family pairs; a non-square Homogeneous has no inverse
+    homog_pair = ca["kind"] in KINDS and cb["kind"] in KINDS and ca.get("rect") is None and cb.get("rect") is None
     prod = stages_matrix(model) if homog_pair else None
     ctx.nontrivial(not alias and not is_identity_stages(sa) and not is_identity_stages(sb))
     da, db = dig(a), dig(b)
@@ -469,7 +547,10 @@ def run_pair(ctx, ca, cb, direction, inplace, alias, x):
     if not inplace:
         r = getattr(a, meth)(b)
         ctx.expect(r is not a and r is not b, "result_is_an_operand", meth)
+        n_f = len(ctx.fails)
         check_map(ctx, r, x, ref, "law.%s" % meth, "%s x %s:" % (ca["kind"], cb["kind"]))
+        if len(ctx.fails) == n_f:  # a signature of its own only when the array form is right and the shape form is not
+            check_map(ctx, r, x, ref, "law.%s.applied_to_a_pointcloud" % meth, "%s x %s:" % (ca["kind"], cb["kind"]), as_shape=True)
         expect_unchanged(ctx, a, da, "operand_changed.receiver.%s" % meth)
         if not alias:
             expect_unchanged(ctx, b, db, "operand_changed.argument.%s" % meth)
@@ -550,6 +631,8 @@ DIRS = ("before", "after")
 
 def grid_cells(tier):
     reps = 3 if tier == "quick" else 60
+    # the run seed is part of the cell (so a replay file reproduces the parameters without the environment)
+    seed = int(os.environ.get("VERIF_SEED", "1"))
     out = []
     for ka in KINDS:
         for kb in KINDS:
@@ -557,7 +640,7 @@ def grid_cells(tier):
                 for d in (2, 3):
                     for ip in (False, True):
                         for rep in range(reps):
-                            out.append({"a": ka, "b": kb, "dir": direction, "d": d, "inplace": ip, "rep": rep})
+                            out.append({"a": ka, "b": kb, "dir": direction, "d": d, "inplace": ip, "rep": rep, "seed": seed})
     return out
 
 
@@ -565,11 +648,15 @@ def expand_cell(case):
     if "A" in case:
         return case
     cell = "%s|%s|%s|%d|%s" % (case["a"], case["b"], case["dir"], case["d"], "ip" if case["inplace"] else "pl")
-    rs = np.random.RandomState(zlib.crc32(("%s#%d" % (cell, case["rep"])).encode()) & 0xFFFFFFFF)
+    key = "%s#%d" % (cell, case["rep"])
+    seeded = "seed" in case  # cells written before the seed was mixed in replay with their original parameters
+    if seeded:
+        key += "#%d" % case["seed"]
+    rs = np.random.RandomState(zlib.crc32(key.encode()) & 0xFFFFFFFF)
     d = case["d"]
     full = dict(case)
-    full["A"] = sample_homog(rs, case["a"], d)
-    full["B"] = sample_homog(rs, case["b"], d)
+    full["A"] = sample_homog(rs, case["a"], d, variants=seeded)
+    full["B"] = sample_homog(rs, case["b"], d, variants=seeded)
     full["pts"] = [_vec(rs, d) for _ in range(6)]
     full["alias"] = bool(case["a"] == case["b"] and case["rep"] % 3 == 2)
     return full
@@ -578,14 +665,119 @@ def expand_cell(case):
 def c_grid(case, ctx):
     c = expand_cell(case)
     ctx.event("alias" if c["alias"] else "two objects")
+    for oc in (c["A"], c["B"]):
+        if oc.get("imat") is not None:
+            ctx.event("operand with an integer-dtype matrix (%s)" % oc["kind"])
+        elif oc.get("identity"):
+            ctx.event("operand is the exact identity")
+        elif oc.get("w", 1.0) != 1.0:
+            ctx.event("Homogeneous operand stored with w != 1")
     run_pair(ctx, c["A"], c["B"], c["dir"], c["inplace"], c["alias"], gen.arr(c["pts"]))
 
 
 # ==============================================================================================
 # (b) pairs
 
-ALL_KINDS = objs.HOMOG_KINDS + objs.OTHER_KINDS
-INVERTIBLE_BY_REF = set(objs.HOMOG_KINDS) | {"TransformChain", "WithDims"}
+RICH = "RichChain"  # generator-only name: the case it yields has kind "TransformChain"
+RECT = "RectHomogeneous"  # generator-only name: kind "Homogeneous" with a (d_out + 1) x (d + 1) matrix under "rect"
+OTHERS = objs.OTHER_KINDS + [RICH, RICH, RECT]
+ALL_KINDS = objs.HOMOG_KINDS + OTHERS
+
+
+def out_dims(case):
+    if case.get("rect") is not None:
+        return len(case["rect"]) - 1
+    if case["kind"] == "TransformChain":
+        return case.get("d_out", case["d"])
+    return objs.out_dims(case)
+
+
+@st.composite
+def s_rect(draw, d):
+    """A Homogeneous that changes dimension (2-D -> 3-D or 3-D -> 2-D): linear entries in [-2, 2], |t| <= 10, zero or
+    small perspective row, any overall scale w."""
+    do = 5 - d
+    rows = [[draw(gen.q(-2, 2)) for _ in range(d)] + [draw(gen.q(-10, 10))] for _ in range(do)]
+    persp = [draw(gen.q(-0.008, 0.008, 1 << 16)) for _ in range(d)] if draw(st.booleans()) else [0.0] * d
+    w = draw(st.sampled_from(W_CHOICES))
+    rect = [[v * w for v in r] for r in rows] + [[v * w for v in persp] + [w]]
+    return {"kind": "Homogeneous", "d": d, "rect": rect}
+
+
+@st.composite
+def s_rich_chain(draw, d, depth=0, preserve=False):
+    """A chain of 1-3 members drawn from: homogeneous family, ThinPlateSplines (where the running dimension is 2),
+    WithDims (a permutation of the axes if `preserve`, else any selection of >= 2 axes, so a 3-D chain may continue in
+    2-D) and, to depth 2, another such chain.  The running dimension is tracked; `d_out` is the chain's output dimension."""
+    k = draw(st.integers(1, 3))
+    members = []
+    dcur = d
+    for _ in range(k):
+        opts = ["homog", "homog", "withdims"] + (["tps", "tps"] if dcur == 2 else []) + (["chain", "chain"] if depth < 2 else [])
+        what = draw(st.sampled_from(opts))
+        if what == "homog":
+            m = draw(objs.homog_case(d=dcur))
+        elif what == "tps":
+            m = draw(objs.warp_case(kind="ThinPlateSplines"))
+        elif what == "chain":
+            m = draw(s_rich_chain(dcur, depth + 1, preserve))
+        else:
+            lo = dcur if preserve else 2
+            form = draw(st.sampled_from(["list", "list", "mask"]))
+            if form == "mask" and not preserve:
+                dims = draw(st.lists(st.booleans(), min_size=dcur, max_size=dcur).filter(lambda b: sum(b) >= 2))
+            elif form == "mask":
+                dims = [True] * dcur
+            else:
+                dims = draw(st.lists(st.integers(0, dcur - 1), min_size=lo, max_size=dcur, unique=True))
+            m = {"kind": "WithDims", "d": dcur, "form": form, "dims": dims}
+        members.append(m)
+        dcur = out_dims(m)
+    return {"kind": "TransformChain", "d": d, "d_out": dcur, "members": members}
+
+
+@st.composite
+def s_transform(draw, d, kinds, preserve=False):
+    kind = draw(st.sampled_from(kinds))
+    if kind == RICH:
+        return draw(s_rich_chain(d, preserve=preserve))
+    if kind == RECT:
+        return draw(s_rect(d))
+    return draw(objs.transform_case(d=d, kinds=[kind]))
+
+
+def chain_profile(case):
+    """Classification of a chain case: which non-homogeneous members it holds (at any depth) and its nesting depth."""
+    has, depth = set(), 0
+    for m in case["members"]:
+        if m["kind"] == "TransformChain":
+            h2, d2 = chain_profile(m)
+            has |= h2
+            depth = max(depth, d2 + 1)
+        elif m["kind"] not in KINDS:
+            has.add(m["kind"])
+    return has, depth
+
+
+def kind_label(case):
+    if case.get("rect") is not None:
+        return "Homogeneous(non-square)"
+    if case["kind"] != "TransformChain":
+        return case["kind"]
+    has, depth = chain_profile(case)
+    if not has and not depth:
+        return "TransformChain"
+    return "TransformChain[%s%s]" % ("+".join(sorted(has)) or "homogeneous", ", nested" if depth else "")
+
+
+def ref_invertible(case):
+    """The reference inverse (_preimage) handles the homogeneous family, a top-level WithDims and flat chains of
+    homogeneous members."""
+    if case.get("rect") is not None:
+        return False
+    if case["kind"] in KINDS or case["kind"] == "WithDims":
+        return True
+    return case["kind"] == "TransformChain" and all(m["kind"] in KINDS for m in case["members"])
 
 
 def _withdims_1d(draw):
@@ -597,12 +789,12 @@ def _withdims_1d(draw):
 def s_pairs(draw):
     d = draw(st.sampled_from([2, 2, 2, 3]))
     mode = draw(st.sampled_from(["other_first", "other_first", "other_second", "other_second", "other_both", "any", "any", "alias"]))
-    others = objs.OTHER_KINDS
-    k1 = {"other_first": others, "other_both": others, "alias": ["TransformChain", "ThinPlateSplines", "TransformChain"] + objs.HOMOG_KINDS[:3]}.get(mode, ALL_KINDS)
-    first = draw(objs.transform_case(d=d, kinds=k1))
+    others = OTHERS
+    k1 = {"other_first": others, "other_both": others, "alias": ["TransformChain", "ThinPlateSplines", RICH, RICH] + objs.HOMOG_KINDS[:3]}.get(mode, ALL_KINDS)
+    first = draw(s_transform(d, k1))
     c = {"first": first, "dir": draw(st.sampled_from(DIRS)), "inplace": draw(st.sampled_from([False, False, True])),
          "pts": draw(st.lists(gen.vec(3), min_size=6, max_size=6)), "picks": draw(objs.bary_picks(6, 6)), "alias": False}
-    d2 = objs.out_dims(first)
+    d2 = out_dims(first)
     if mode == "alias" and d2 == d:
         c["alias"] = True
         c["second"] = first
@@ -613,9 +805,9 @@ def s_pairs(draw):
     k2 = list(others if mode in ("other_second", "other_both") else ALL_KINDS)
     if d2 != 2:
         k2 = [k for k in k2 if k not in PWA_KINDS and k != "ThinPlateSplines"]
-    elif first["kind"] not in INVERTIBLE_BY_REF:
+    elif not ref_invertible(first):
         k2 = [k for k in k2 if k not in PWA_KINDS]
-    c["second"] = draw(objs.transform_case(d=d2, kinds=k2))
+    c["second"] = draw(s_transform(d2, k2))
     return c
 
 
@@ -642,14 +834,14 @@ def _preimage(stages, y, fill):
 def c_pairs(case, ctx):
     first, second = case["first"], case["second"]
     d = first["d"]
-    ctx.event("first=%s" % first["kind"])
-    ctx.event("second=%s" % second["kind"])
+    ctx.event("first=%s" % kind_label(first))
+    ctx.event("second=%s" % kind_label(second))
     x = gen.arr(case["pts"])[:, :d]
     if first["kind"] in PWA_KINDS:
         x = objs.bary_points(first["src"], objs.pwa_trilist(first), case["picks"])
     elif second["kind"] in PWA_KINDS and not case["alias"]:
         y = objs.bary_points(second["src"], objs.pwa_trilist(second), case["picks"])
-        x = _preimage(ref_stages(first, objs.build_transform(first)), y, gen.arr(case["pts"])[:, :d])
+        x = _preimage(ref_stages(first, build(first)), y, gen.arr(case["pts"])[:, :d])
     if case["dir"] == "before":
         ca, cb = first, second
     else:
@@ -658,7 +850,8 @@ def c_pairs(case, ctx):
     if case["alias"]:
         ctx.event("alias")
     homog = first["kind"] in KINDS and second["kind"] in KINDS
-    ctx.event("homogeneous pair" if homog else "fallback pair")
+    rect = first.get("rect") is not None or second.get("rect") is not None
+    ctx.event("non-square homogeneous pair" if homog and rect else "homogeneous pair" if homog else "fallback pair")
     run_pair(ctx, ca, cb, case["dir"], case["inplace"], case["alias"], x)
 
 
@@ -666,13 +859,12 @@ def c_pairs(case, ctx):
 # (c) programs
 
 PROG_OPS = ["before", "after", "before_inplace", "after_inplace", "after_vec"]
-VEC_RECEIVERS = ("Homogeneous", "Affine", "AlignmentAffine", "Similarity", "AlignmentSimilarity")
 
 
 @st.composite
 def s_operand(draw, d):
-    kinds = objs.HOMOG_KINDS * 3 + ["TransformChain", "TransformChain"] + (["ThinPlateSplines"] if d == 2 else [])
-    return draw(objs.transform_case(d=d, kinds=kinds))
+    kinds = objs.HOMOG_KINDS * 3 + ["TransformChain", "TransformChain", RICH, RICH] + (["ThinPlateSplines"] if d == 2 else [])
+    return draw(s_transform(d, kinds, preserve=True))
 
 
 SUBFAMILY_RECEIVERS = (["AlignmentTranslation", "AlignmentRotation", "AlignmentUniformScale"] * 3
@@ -722,12 +914,28 @@ def s_programs(draw):
     return {"d": d, "init": init, "steps": steps, "pts": draw(st.lists(gen.vec(d), min_size=8, max_size=8))}
 
 
+def quaternion_matrix(q):
+    """Homogeneous matrix of the 3-D rotation of the unit quaternion q = (w, x, y, z), written out entry by entry."""
+    w, x, y, z = [float(v) for v in q]
+    m = np.eye(4)
+    m[0, 0], m[0, 1], m[0, 2] = 1 - 2 * (y * y + z * z), 2 * (x * y - z * w), 2 * (x * z + y * w)
+    m[1, 0], m[1, 1], m[1, 2] = 2 * (x * y + z * w), 1 - 2 * (x * x + z * z), 2 * (y * z - x * w)
+    m[2, 0], m[2, 1], m[2, 2] = 2 * (x * z - y * w), 2 * (y * z + x * w), 1 - 2 * (x * x + y * y)
+    return m
+
+
+NOT_VECTORIZABLE = "not vectorizable"
+
+
 def vector_transform(acc, vec, d):
-    """(vector to pass, reference matrix of type(acc).from_vector(vector)) or None if not exercised."""
+    """(vector to pass, reference matrix of type(acc).from_vector(vector)) for the 12 homogeneous-family classes;
+    (vector, NOT_VECTORIZABLE) where menpo documents NotImplementedError (2-D rotations, 3-D similarities); None for
+    anything else (chains, splines).  `vec`: 16 numbers in [-1, 1]."""
     name = type(acc).__name__
-    if name not in VEC_RECEIVERS or not isinstance(acc, Homogeneous):
+    if name not in KINDS or not isinstance(acc, Homogeneous):
         return None
     e = np.array(vec, dtype=float)
+    base = name.replace("Alignment", "")
     if name == "Homogeneous":
         m = np.eye(d + 1)
         k = 0
@@ -743,7 +951,7 @@ def vector_transform(acc, vec, d):
                     m[r, c] += 0.3 * e[k]
                 k += 1
         return m.ravel().copy(), m
-    if name in ("Affine", "AlignmentAffine"):
+    if base == "Affine":
         m = np.eye(d + 1)
         p = []
         k = 0
@@ -754,17 +962,77 @@ def vector_transform(acc, vec, d):
                 p.append(v)
                 m[r, c] += v
         return np.array(p), m
+    if base == "Translation":  # the translation itself
+        m = np.eye(d + 1)
+        p = [5.0 * e[k] for k in range(d)]
+        for k in range(d):
+            m[k, d] = p[k]
+        return np.array(p), m
+    if base == "UniformScale":  # one scale in [0.25, 4]
+        sc = 2.0 ** (2.0 * e[0])
+        m = np.eye(d + 1)
+        for k in range(d):
+            m[k, k] = sc
+        return np.array([sc]), m
+    if base == "NonUniformScale":  # one scale per axis
+        m = np.eye(d + 1)
+        p = [2.0 ** (2.0 * e[k]) for k in range(d)]
+        for k in range(d):
+            m[k, k] = p[k]
+        return np.array(p), m
+    if base == "Rotation":  # unit quaternion (3-D only)
+        if d != 3:
+            return np.array([1.0, 0.0, 0.0, 0.0]), NOT_VECTORIZABLE
+        q = [e[0], e[1], e[2], e[3]]
+        nrm = math.sqrt(sum(v * v for v in q))
+        q = [v / nrm for v in q] if nrm >= 1e-3 else [1.0, 0.0, 0.0, 0.0]
+        return np.array(q), quaternion_matrix(q)
+    # Similarity: [a, b, tx, ty] in 2-D
     if d != 2:
-        return None
+        return np.array([0.5 * e[k] for k in range(7)]), NOT_VECTORIZABLE
     a, b, tx, ty = 0.5 * e[0], 0.5 * e[1], 5.0 * e[2], 5.0 * e[3]
     m = np.array([[1 + a, -b, tx], [b, 1 + a, ty], [0, 0, 1.0]])
     return np.array([a, b, tx, ty]), m
 
 
+def matrix_matches(h, prod, rtol=1e-9):
+    """h equals prod; up to the homogeneous scale when prod is not affine."""
+    h = np.asarray(h, dtype=float)
+    if h.shape != prod.shape:
+        return False
+    sc = 1.0
+    if not (matrix_facts(prod)["Affine"] and abs(prod[-1, -1] - 1.0) < 1e-12):
+        sc = float((h * prod).sum() / (prod * prod).sum())
+    scale = max(1.0, float(np.abs(prod).max()) * abs(sc))
+    return abs(sc) > 1e-12 and bool(np.all(np.abs(h - sc * prod) <= rtol * scale))
+
+
+def vector_step(ctx, acc, vt, d_before, sig):
+    """acc.compose_after_from_vector_inplace(vector); -> True if executed, False if (legitimately) not vectorizable."""
+    vec, m = vt
+    vec_before = vec.copy()
+    cls = type(acc)
+    if isinstance(m, str):
+        try:
+            acc.compose_after_from_vector_inplace(vec)
+        except NotImplementedError:
+            ctx.event("after_vec: NotImplementedError (%s, documented)" % cls.__name__)
+            expect_unchanged(ctx, acc, d_before, sig + ".refused_but_receiver_changed")
+            ctx.expect(np.array_equal(vec, vec_before), sig + ".vector_argument_mutated", cls.__name__)
+            return False
+        ctx.fail(sig + ".not_vectorizable_but_accepted", "%s in %d-D accepted a parameter vector although its from_vector is "
+                 "documented as not implemented" % (cls.__name__, acc.n_dims))
+        return False
+    ret = acc.compose_after_from_vector_inplace(vec)
+    ctx.expect(ret is None, sig + ".returns_something", lambda: type(ret).__name__)
+    ctx.expect(np.array_equal(vec, vec_before), sig + ".vector_argument_mutated", cls.__name__)
+    ctx.expect(type(acc) is cls, sig + ".receiver_class_changed", lambda: "%s -> %s" % (cls.__name__, type(acc).__name__))
+    return True
+
+
 def c_programs(case, ctx):
     d = case["d"]
     x = gen.arr(case["pts"])
-    build = objs.build_transform
     acc = build(case["init"])
     entries = [{"obj": acc, "stages": ref_stages(case["init"], acc), "dig": None}]
     entries[0]["dig"] = dig(acc)
@@ -782,10 +1050,9 @@ def c_programs(case, ctx):
             if vt is None:
                 ctx.event("step=after_vec not applicable to %s" % type(acc).__name__)
                 continue
-            vec, m = vt
-            vec_before = vec.copy()
-            acc.compose_after_from_vector_inplace(vec)
-            ctx.expect(np.array_equal(vec, vec_before), "program.vector_argument_mutated", type(acc).__name__)
+            if not vector_step(ctx, acc, vt, entries[cur]["dig"], "program.vector"):
+                continue
+            m = vt[1]
             entries[cur]["stages"] = [("h", m)] + acc_stages
             entries[cur]["dig"] = dig(acc)
             executed += 1
@@ -873,6 +1140,60 @@ def c_programs(case, ctx):
 
 
 # ==============================================================================================
+# (c2) vector: compose_after_from_vector_inplace on every homogeneous-family receiver
+
+
+@st.composite
+def s_vector(draw):
+    kind = draw(st.sampled_from(KINDS))
+    d = draw(st.sampled_from([2, 3]))
+    c = {"t": draw(objs.homog_case(kind=kind, d=d)),
+         "vecs": draw(st.lists(st.lists(gen.q(-1, 1), min_size=16, max_size=16), min_size=1, max_size=2)),
+         "pts": draw(st.lists(gen.vec(d), min_size=6, max_size=6)),
+         "then": draw(st.sampled_from([None, "before", "after"]))}
+    if c["then"] is not None:
+        c["other"] = draw(objs.homog_case(d=d))
+    return c
+
+
+def c_vector(case, ctx):
+    tc = case["t"]
+    d = tc["d"]
+    x = gen.arr(case["pts"])
+    t = objs.build_homog(tc)
+    stages = ref_stages(tc, t)
+    ctx.event("receiver=%s d=%d" % (tc["kind"], d))
+    done = 0
+    for vec in case["vecs"]:
+        vt = vector_transform(t, vec, d)
+        d0 = dig(t)
+        if not vector_step(ctx, t, vt, d0, "vector"):
+            break
+        done += 1
+        stages = [("h", vt[1])] + stages
+        ref = ref_eval(stages, x)
+        check_map(ctx, t, x, ref, "vector.map_is_not_receiver_after_from_vector.%s" % type(t).__name__.replace("Alignment", ""),
+                  "%s after %d vector(s):" % (tc["kind"], done))
+        prod = stages_matrix(stages)
+        ctx.expect(matrix_matches(t.h_matrix, prod), "vector.matrix_vs_h0_times_from_vector",
+                   lambda: "h_matrix\n%s\nreceiver's matrix before x matrix of the vector\n%s" % (
+                       np.array2string(np.asarray(t.h_matrix, dtype=float), precision=8), np.array2string(prod, precision=8)))
+    ctx.nontrivial(done >= 1 and not is_identity_stages(stages[-1:]))
+    if not done or case["then"] is None or ctx.fails:
+        return
+    # the receiver is still a sound operand of a plain composition afterwards
+    oc = case["other"]
+    b = objs.build_homog(oc)
+    sb = ref_stages(oc, b)
+    model = stages + sb if case["then"] == "before" else sb + stages
+    narrowed = dishonest_classes(t)
+    r = getattr(t, "compose_" + case["then"])(b)
+    ctx.event("then=%s %s" % (case["then"], oc["kind"]))
+    check_map(ctx, r, x, ref_eval(model, x), "vector.then_plain_composition_wrong" + (".receiver_narrower_than_its_matrix" if narrowed else ""),
+              "%s x %s:" % (tc["kind"], oc["kind"]))
+
+
+# ==============================================================================================
 # (d) decompose
 
 AFFINE_KINDS = [k for k in KINDS if k != "Homogeneous"]
@@ -884,6 +1205,35 @@ def s_decompose(draw):
     kind = draw(st.sampled_from(list(FOUR_FACTOR) * 2 + AFFINE_KINDS))
     c = draw(objs.homog_case(kind=kind))
     return {"t": c, "pts": draw(st.lists(gen.vec(c["d"]), min_size=6, max_size=6))}
+
+
+def check_factors(ctx, tc, t, parts):
+    """The factors themselves: `decompose` promises a list of DiscreteAffine; the SVD form is rotation, scale, rotation,
+    translation.  Every factor's class must be honest about its own matrix (a Rotation factor may be improper: only
+    orthogonality is required), a scale factor has positive entries (singular values), and none of the four is an
+    alignment.  A discrete class is already maximally decomposed: one factor, a copy of the transform."""
+    from menpo.transform import Rotation, UniformScale, NonUniformScale, Translation
+    from menpo.transform.homogeneous.affine import DiscreteAffine
+
+    names = [type(p).__name__ for p in parts]
+    for p in parts:
+        if not isinstance(p, Homogeneous):
+            continue
+        for nm in dishonest_classes(p):
+            ctx.fail("decompose.factor_class_honesty.%s" % nm, "factor reported as %s (bases %r) but its matrix is not one:\n%s" % (
+                type(p).__name__, reported_classes(p), np.array2string(np.asarray(p.h_matrix, dtype=float), precision=6)))
+    ctx.expect(all(isinstance(p, DiscreteAffine) for p in parts), "decompose.factor_not_discrete_affine", lambda: repr(names))
+    if tc["kind"] in FOUR_FACTOR:
+        want = [(Rotation,), (UniformScale, NonUniformScale), (Rotation,), (Translation,)]
+        if ctx.expect(len(parts) == 4 and all(isinstance(p, w) for p, w in zip(parts, want)), "decompose.factor_types",
+                      lambda: "%r, expected [Rotation, UniformScale | NonUniformScale, Rotation, Translation]" % names):
+            ctx.expect(not any(isinstance(p, Alignment) for p in parts), "decompose.factor_is_alignment", lambda: repr(names))
+            sc = np.diag(np.asarray(parts[1].h_matrix, dtype=float))[:-1]
+            ctx.expect(bool(np.all(sc > 0)), "decompose.scale_factor_not_positive", lambda: repr(sc.tolist()))
+            ctx.event("scale factor=%s" % names[1])
+    else:
+        ctx.expect(len(parts) == 1 and parts[0] is not t and type(parts[0]) is type(t), "decompose.discrete_class_not_returned_as_a_copy",
+                   lambda: "%s.decompose() -> %r%s" % (type(t).__name__, names, " (the transform itself)" if any(p is t for p in parts) else ""))
 
 
 def c_decompose(case, ctx):
@@ -901,6 +1251,7 @@ def c_decompose(case, ctx):
     expect_unchanged(ctx, t, d0, "decompose.changes_the_transform")
     ctx.expect(all(isinstance(p, Homogeneous) for p in parts), "decompose.factor_not_homogeneous_family",
                lambda: repr([type(p).__name__ for p in parts]))
+    check_factors(ctx, tc, t, parts)
     rec = reduce(lambda u, v: u.compose_before(v), parts)
     ctx.expect(isinstance(rec, Homogeneous) and not isinstance(rec, TransformChain), "decompose.recomposition_not_homogeneous",
                lambda: type(rec).__name__)
@@ -926,6 +1277,10 @@ CLAUSES = [
            rule="drawn pairs incl. chains, TPS, PWA, WithDims; law on in-domain points, operands intact, in-place gate"),
     Clause("programs", c_programs, s_programs, quick=2000, thorough=40000, nt_floor=0.3,
            rule="1-8 compose steps on an accumulator with aliasing; non-trivial: >= 2 executed steps incl. an accepted in-place one"),
+    Clause("vector", c_vector, s_vector, quick=700, thorough=14000, nt_floor=0.5,
+           rule="compose_after_from_vector_inplace on each of the 12 classes in 2-D/3-D (translation / scale(s) / unit quaternion / "
+                "[a, b, tx, ty] / affine deltas / full matrix): map and matrix equal receiver x from_vector(vector), vector intact, "
+                "NotImplementedError for 2-D rotations and 3-D similarities; non-trivial: >= 1 vector composed onto a non-identity receiver"),
     Clause("decompose", c_decompose, s_decompose, quick=1000, thorough=20000, nt_floor=0.4,
            rule="reduce(compose_before, t.decompose()) equals t; non-trivial: 4-factor decomposition of a non-identity affine"),
 ]
